@@ -1487,19 +1487,17 @@ static void op_values (V &v, const Op &op, OpResult &res, Bool<true>)
   else if (! std::strcmp (nm, "erase_val"))
     {
       const Elem needle = make_elem (static_cast<int> (op.a[0]));     // harness-owned, outlives the logged call
-      g_logging = true;
+      ARM ();
       res.ret = static_cast<long> (erase (v, needle));
-      g_logging = false;
     }
   else if (! std::strcmp (nm, "erase_if"))
     {
       // predicate a0: 0 none, 1 all, 2 value is odd, 3 value < a1
       long kind = op.a[0], thr = op.a[1];
-      g_logging = true;
+      ARM ();
       res.ret = static_cast<long> (erase_if (v, [kind, thr] (const Elem &e) {
                   int x = val_of (e);
                   return kind == 1 || (kind == 2 && (x & 1)) || (kind == 3 && x < thr); }));
-      g_logging = false;
     }
 #endif
   else
